@@ -4,6 +4,8 @@ Every density comes as
   f(x, *p)    plain python function (signature inspectable by kafe2; works on scalars and arrays)
   F(x, *p)    antiderivative, array capable, same argument names
   Fs(x, *p)   antiderivative for ONE scalar x (math module: raises on arrays) - used through numpy.vectorize
+f and F refer to nothing but their arguments, ``np`` and ``scipy``: their source text is a complete definition wherever numpy
+and scipy are imported under these names, so that a model written to a file (kafe2 stores the source) can be read back.
 and an exact reference ``exact(name, params, a, b)`` = integral of f over [a, b] that does not go through F:
 rational arithmetic for the monomials, 40-digit mpmath for normal / exponential / mixture.
 """
@@ -13,10 +15,10 @@ from fractions import Fraction
 
 import mpmath
 import numpy as np
-from scipy import special
+import scipy
+import scipy.special
 
 _SQ2 = math.sqrt(2.0)
-_SQ2PI = math.sqrt(2.0 * math.pi)
 
 
 # -- monomials c x^k -----------------------------------------------------------------------
@@ -94,11 +96,11 @@ def mono5_Fs(x, c=1.3):
 
 # -- normal ---------------------------------------------------------------------------------
 def normal(x, mu=1.2, sigma=0.8):
-    return np.exp(-0.5 * ((x - mu) / sigma) ** 2) / (_SQ2PI * sigma)
+    return np.exp(-0.5 * ((x - mu) / sigma) ** 2) / (np.sqrt(2.0 * np.pi) * sigma)
 
 
 def normal_F(x, mu=1.2, sigma=0.8):
-    return 0.5 * (1.0 + special.erf((x - mu) / (sigma * _SQ2)))
+    return 0.5 * (1.0 + scipy.special.erf((x - mu) / (sigma * np.sqrt(2.0))))
 
 
 def normal_Fs(x, mu=1.2, sigma=0.8):
@@ -120,11 +122,11 @@ def expo_Fs(x, lam=0.5):
 
 # -- two-component mixture ------------------------------------------------------------------
 def mixture(x, f=0.3, mu=1.2, sigma=0.8, lam=0.5):
-    return f * np.exp(-0.5 * ((x - mu) / sigma) ** 2) / (_SQ2PI * sigma) + (1.0 - f) * lam * np.exp(-lam * x)
+    return f * np.exp(-0.5 * ((x - mu) / sigma) ** 2) / (np.sqrt(2.0 * np.pi) * sigma) + (1.0 - f) * lam * np.exp(-lam * x)
 
 
 def mixture_F(x, f=0.3, mu=1.2, sigma=0.8, lam=0.5):
-    return f * 0.5 * (1.0 + special.erf((x - mu) / (sigma * _SQ2))) - (1.0 - f) * np.exp(-lam * x)
+    return f * 0.5 * (1.0 + scipy.special.erf((x - mu) / (sigma * np.sqrt(2.0)))) - (1.0 - f) * np.exp(-lam * x)
 
 
 def mixture_Fs(x, f=0.3, mu=1.2, sigma=0.8, lam=0.5):
